@@ -105,3 +105,27 @@ proof fn lemma_leading_spaces_prefix(s: Seq<char>)
 
 /// `needs_double_quotes` (iterator `any` over chars: a quote, a backslash or a control character)
 spec fn needs_dq(s: Seq<char>) -> bool { exists|k: int| 0 <= k < s.len() && ((#[trigger] s[k]) == '\'' || s[k] == '\\' || is_cc(s[k])) }
+
+// ---- folding of long lines (src/wrapping.rs write_folded_block) ----
+spec fn fold_spaces(n: int) -> Seq<char> { Seq::new(if n > 0 { n as nat } else { 0 }, |i: int| ' ') }
+spec fn all_spaces(cs: Seq<char>, a: int, b: int) -> bool { forall|j: int| a <= j < b ==> (#[trigger] cs[j]) == ' ' }
+
+proof fn lemma_char_off_step(cs: Seq<char>, k: int)
+    requires 0 <= k < cs.len(),
+    ensures char_off(cs, k + 1) == char_off(cs, k) + encode_scalar(cs[k] as u32).len(),
+{
+    assert(cs.take(k + 1) =~= cs.take(k).push(cs[k]));
+    encode_utf8_push(cs.take(k), cs[k]);
+}
+
+/// a piece, the remaining spaces of the run and the one space the line break stands for are the text up to the run's end
+proof fn lemma_fold_piece(cs: Seq<char>, ks: int, a: int, b: int)
+    requires 0 <= ks <= a < b <= cs.len(), all_spaces(cs, a, b),
+    ensures cs.subrange(0, ks) + cs.subrange(ks, a) + fold_spaces(b - a - 1) + seq![' '] =~= cs.subrange(0, b),
+{
+    let l = cs.subrange(0, ks) + cs.subrange(ks, a) + fold_spaces(b - a - 1) + seq![' '];
+    assert(l.len() == b);
+    assert forall|j: int| 0 <= j < b implies (#[trigger] l[j]) == cs.subrange(0, b)[j] by {
+        if j >= a { assert(cs[j] == ' '); }
+    }
+}
